@@ -486,6 +486,28 @@ fn check_iter(pre: &Snapshot, post: &Snapshot, spec: &IterSpec, tr: &IterTrace, 
     if !tr.fused_ok {
         return Err("an exhausted iterator yielded an item or a non-zero size_hint".to_string());
     }
+    {
+        let proj = |e: &(u32, u64)| (if spec.fam.has_keys() { Some(e.0) } else { None }, if spec.fam.has_vals() { Some(e.1) } else { None });
+        let rest = &ex.rest;
+        let (name, exp_item, exp_n): (&str, Option<(Option<u32>, Option<u64>)>, Option<usize>) = match spec.fin {
+            1 => ("last()", rest.last().map(proj), None),
+            2 => ("nth(1)", rest.get(1).map(proj), Some(rest.len().saturating_sub(2))),
+            3 => ("nth_back(1)", if rest.len() >= 2 { rest.get(rest.len() - 2).map(proj) } else { None }, Some(rest.len().saturating_sub(2))),
+            4 => ("rev().next()", rest.last().map(proj), None),
+            5 => ("a for loop over the remainder", rest.last().map(proj), Some(rest.len())),
+            _ => ("", None, None),
+        };
+        if spec.fin != 0 {
+            if tr.fin_item != exp_item {
+                return Err(format!("{} on the remaining {:?} returned {:?}, expected {:?}", name, rest, tr.fin_item, exp_item));
+            }
+            if let Some(n) = exp_n {
+                if tr.fin_n != n {
+                    return Err(format!("{}: {} items afterwards / visited, expected {}", name, tr.fin_n, n));
+                }
+            }
+        }
+    }
     if let Some(exp_rest) = &ex.clone_rest {
         let exp_rest: Vec<(Option<u32>, Option<u64>)> = exp_rest
             .iter()
@@ -517,6 +539,28 @@ fn check_iter(pre: &Snapshot, post: &Snapshot, spec: &IterSpec, tr: &IterTrace, 
         return Err(format!("list after iteration: expected {:?}, observed {:?}", exp_post, post.kv(li)));
     }
     Ok(())
+}
+
+/// C01 through the public API only (used when the structural audit fails, so that no hooked
+/// snapshot exists): iterators must not show a key twice and must agree with len()
+fn public_c01(sub: &mut Box<dyn DynSubject>, kind: Kind) -> Option<String> {
+    let keys = sub.public_keys()?;
+    let nres = kind.resident_lists();
+    let mut seen = HashSet::new();
+    for l in &keys {
+        for k in l {
+            if !seen.insert(*k) {
+                return Some(format!("the public iterators show key {} more than once: {:?}", k, keys));
+            }
+        }
+    }
+    let resident: usize = keys[..nres].iter().map(|l| l.len()).sum();
+    if let Res::Num(n) = sub.exec(&Op::Len, 0) {
+        if n as usize != resident && resident < 64 {
+            return Some(format!("len() = {} but the public iterators of the resident lists yield {} entries", n, resident));
+        }
+    }
+    None
 }
 
 /// Run one history on a freshly built real cache. Never panics.
@@ -553,14 +597,30 @@ pub fn run_history(cfg: &Cfg, kt: KeyType, ops: &[Op], opts: &RunOpts, cov: &mut
                 prop: "C03".into(),
                 rule: "audit".into(),
                 sig: format!("C03|{}|audit|new", kind.name()),
-                detail: format!("fresh cache fails the structural audit: {}", e),
+                detail: format!("fresh cache ({}) fails the structural audit: {}", cfg.describe(), e),
                 step: 0,
             });
+            if props.c01 {
+                if let Some(d) = public_c01(&mut sub, kind) {
+                    out.violations.push(Violation { prop: "C01".into(), rule: "public-view".into(), sig: format!("C01|{}|public-view|new", kind.name()), detail: format!("fresh cache ({}): {}", cfg.describe(), d), step: 0 });
+                }
+            }
             return out;
         }
     };
+    // the cache may start non-empty (built by a conversion): start the model from what is there
+    model.st.lists = (0..pre.lists.len()).map(|li| pre.kv(li)).collect();
+    model.st.p = pre.p;
+    if kind == Kind::Lru {
+        model.st.cap = pre.caps[0];
+    }
     // C02 shadow store
     let mut shadow: HashMap<u32, u64> = HashMap::new();
+    for l in &pre.lists {
+        for it in l {
+            shadow.insert(it.k, it.vid);
+        }
+    }
     let mut last_probes: Option<Probes> = if props.needs_probes() {
         sub.probes(&opts.universe).ok()
     } else {
@@ -683,6 +743,11 @@ pub fn run_history(cfg: &Cfg, kt: KeyType, ops: &[Op], opts: &RunOpts, cov: &mut
             Err(e) => {
                 if props.c03 {
                     viol!("C03", "audit", i, op, pc, "after {}: {} (state before: {})", op, e, pre.describe(kind));
+                }
+                if props.c01 {
+                    if let Some(d) = public_c01(&mut sub, kind) {
+                        viol!("C01", "public-view", i, op, pc, "after {}: {} (state before: {})", op, d, pre.describe(kind));
+                    }
                 }
                 break 'ops;
             }
@@ -877,6 +942,16 @@ pub fn run_history(cfg: &Cfg, kt: KeyType, ops: &[Op], opts: &RunOpts, cov: &mut
             for (li, l) in post.lists.iter().enumerate() {
                 if l.len() == b2[li] {
                     cov.must.bump(&format!("{}:{}:at-bound", kind.name(), kind.list_names()[li]));
+                }
+            }
+            if i % 7 == 0 {
+                if let Some(pk) = sub.public_keys() {
+                    for (li, l) in post.lists.iter().enumerate() {
+                        let hk: Vec<u32> = l.iter().map(|it| it.k).collect();
+                        if l.len() < 64 && pk[li] != hk {
+                            viol!("C01", "public-view", i, op, pc, "the public key iterator of '{}' yields {:?} but the list holds {:?}", kind.list_names()[li], pk[li], hk);
+                        }
+                    }
                 }
             }
         }
